@@ -218,6 +218,9 @@ RxAllowedFor(cfg, allocFail, verdict0, vaddr, dataIn, wireIn) ==
        THEN \* claimed for well-formed requests only: busy response echoing sequence and address
             IF Classes(o) = {C_OK} /\ IsRequest(o)
             THEN {RxObs(cfg.tr, 0, 16, 0, <<>>, <<ErrResponse(cfg.tr, Fields(o).type, EBUSY, Fields(o).sq, Fields(o).addr, <<0, 0>>)>>)}
+            ELSE IF Len(o) < 12
+            THEN \* shorter than any header: there is no sequence number or address to echo - bad header encoding, as without the failure
+                 {RxObs(cfg.tr, 0, id, 0, <<>>, <<MetaMessage(cfg.tr, M_HEADERENC)>>) : id \in {16, C_ENC}}
             ELSE {<<-9>>}
        ELSE IF Len(o) > cfg.cap
        THEN IF cfg.cap >= 16 /\ Len(o) >= 16 /\ Classes(o) \cap {C_ENC, C_HDCRC} = {} /\ IsRequest(o)
